@@ -28,7 +28,7 @@ def invLine (st : St) : String :=
       if decide (Xdist.Sys.Inv ls) then "inv=1"
       else
         let badCtl := if decide (Xdist.Sys.CtlInv ls) then "" else " ctl"
-        let bad := ls.wk.zipIdx.filter (fun p => !decide (Xdist.Sys.WkInv ls p.2 p.1))
+        let bad := ls.wk.zipIdx.filter (fun p => !decide (Xdist.Sys.WkInv ls.ctl p.2 p.1))
         s!"inv=0{badCtl} workers={bad.map (·.2)}"
 
 def handleInv (st : St) (line : String) : St × String :=
